@@ -1,4 +1,5 @@
 import SpecVerif.Proofs.C05
+import SpecVerif.Proofs.C05Ov
 /-!
 # C05 — scalar and top-level helpers compute exactly the documented new state
 
@@ -1014,6 +1015,105 @@ example : run Ew 3 recvW { op := .resetA 0 }
     = ⟨recvW, .fresh (.inst 0 (.cons 0 (.sc (.int 5)) (.cons 1 (.list (.cons (.sc (.int 1)) .nil)) .nil)))⟩ := by
   decide
 
+/-! ## constructors that take `**kwargs` (`init_overflow_attr`) and the constructor-argument memo
+
+`Model/C05Ov.lean`: `_get_function_args` with its per-function memo, and the recursive knot / the helpers over a
+class table in which some classes collect extra constructor keywords. -/
+
+section overflow
+open SpecVerif.C05.Ov SpecVerif.C05.Ov.Proofs
+variable (ov : OvMap)
+
+/-- **args_memo_never_stale.** For every table of constructor signatures and every history of
+`_get_function_args` calls starting from an empty memo, every answer is what the signature says about the keywords
+of THAT call (`argsOf`): nothing remembered from an earlier call — on the same or on another constructor, with the
+same or with other keywords — changes an answer.  (The invariant is `MemoOK`: only signatures without `**kwargs`
+are remembered, as their own parameter list.) -/
+theorem args_memo_never_stale (sigs : Nat → Sig) (calls : List (Nat × List Nat)) :
+    runArgs sigs [] calls = calls.map (fun c => argsOf (sigs c.1) c.2) :=
+  runArgs_eq sigs calls [] (memoOK_nil sigs)
+
+/-- … and from every memo a history can have produced (`MemoOK` is preserved by every call). -/
+theorem args_memo_never_stale_from (sigs : Nat → Sig) (memo : Memo) (h : MemoOK sigs memo) (f : Nat)
+    (attrs : List Nat) :
+    (getFunctionArgs sigs memo f attrs).1 = argsOf (sigs f) attrs ∧ MemoOK sigs (getFunctionArgs sigs memo f attrs).2 :=
+  ⟨getFunctionArgs_fst sigs memo f attrs h, getFunctionArgs_snd sigs memo f attrs h⟩
+
+/-- **ctor_keywords_from_signature.** Step 4 of `mutate_value` (build a nested value from keywords): the
+keywords handed to the constructor of spec class `c`, and the `used_attrs` that are not assigned afterwards, are
+exactly the keywords of the call that `argsOf (ctorSig …)` names — all of them for a `**kwargs` constructor, the
+managed attributes otherwise. -/
+theorem ctor_keywords_from_signature (ctor : Nat → Kw → Except Err Val) (p : MV) (ty : Ty) (c : Nat) (cs : ClassSpec)
+    (hty : p.ty = some ty) (hc : ty.ctor = .spec c) (hcs : E.cls? c = some cs) :
+    Ov.mvConstruct E ov ctor p MISSING =
+      (ctor c (p.attrs.filter (fun kv =>
+          ((p.attrs.map (·.1)).filter (fun a => (argsOf (ctorSig E ov c) (p.attrs.map (·.1))).contains a)).contains kv.1
+            && kv.2 != MISSING))).map
+        (·, (p.attrs.map (·.1)).filter (fun a => (argsOf (ctorSig E ov c) (p.attrs.map (·.1))).contains a)) :=
+  mvConstruct_missing_args E ov ctor p ty c cs hty hc hcs
+
+/-- **ov_conservative.** Without overflow classes the overflow-aware model IS the model the other theorems of
+this file are about: every call has the same outcome, every construction the same result. -/
+theorem ov_conservative (hov : ∀ c, ov c = none) (n : Nat) (recv : Val) (c : Call) :
+    Ov.run E ov n recv c = run E n recv c :=
+  run_eq E ov hov n recv c
+
+theorem ov_conservative_construct (hov : ∀ c, ov c = none) (n c : Nat) (kw : Kw) :
+    Ov.construct E ov n c kw = construct E n c kw :=
+  (knot_eq E ov hov n).2.2.2 c kw
+
+/-- **with_keywords_builds_overflow.** `with_a(**kw)` (also `with_a(EMPTY, **kw)`) on an attribute annotated
+with a spec class `c` whose constructor takes `**kwargs` stores the freshly constructed `c(**kw)` — built from
+EVERY keyword of this call, whatever their names (MISSING keywords dropped) —, type checked, nothing else: no
+keyword is assigned on the result afterwards. -/
+theorem with_keywords_builds_overflow (m : Nat) (recv : Val) (a : Nat) (sp : AttrSpec) (c o : Nat) (cs : ClassSpec)
+    (v : Val) (kw : Kw) (i : Bool) (hsp : specOf E recv a = some sp) (hty : sp.ty = .spec c) (ho : ov c = some o)
+    (hcs : E.cls? c = some cs) (hv : v = MISSING ∨ v = EMPTY) :
+    Ov.run E ov (m+2) recv { op := .withA a v kw, inplace := i }
+      = match Ov.construct E ov m c (kw.filter (fun kv => kv.2 != MISSING)) with
+        | .error e => ⟨recv, .raised e⟩
+        | .ok nested => lift recv (mutateAttr E recv sp nested i) := by
+  unfold Ov.run
+  have hk : Ov.kwOk E ov sp.ty (kw.map (·.1)) = true := by
+    simp [Ov.kwOk, hty, Ty.kwClass, ho, hcs]
+  simp only [hsp, Ov.withAttr, hk, Bool.not_true, Bool.false_eq_true, if_false]
+  rw [prepareAttrValue_build_overflow E ov m recv sp v kw c o hty ho hv]
+  cases Ov.construct E ov m c (kw.filter (fun kv => kv.2 != MISSING)) <;> rfl
+
+/-- **overflow_collects_extras.** The generated `__init__` of a class declared with `init_overflow_attr=<o>`
+(`<o> : Dict[str, Any]`, no preparers): whenever it succeeds, `<o>` holds exactly the keywords of the call that name
+no managed attribute (or name `<o>` itself), as a dict in call order. -/
+theorem overflow_collects_extras (n c o : Nat) (cs : ClassSpec) (spo : AttrSpec) (kw : Kw) (r : Val)
+    (hcs : E.cls? c = some cs) (ho : ov c = some o) (hspo : cs.attr? o = some spo)
+    (hty : spo.ty = .dict .str .any) (hp : spo.prep = none) (hip : spo.itemPrep = none)
+    (hr : Ov.construct E ov n c kw = .ok r) :
+    r.getAttr o = .dict (kwDict (kw.filter (isExtra cs (some o)))) :=
+  construct_overflow_attr E ov n c o cs spo kw r hcs ho hspo hty hp hip hr
+
+end overflow
+
+/-- `C1(a0: int = 1, **a5)` nested in `C0(a0: C1)` -/
+def Eo : Env :=
+  { classes := [{ id := 1,
+                  attrs := [{ name := 0, ty := .int, default := some (.sc (.int 1)), classAttr := some (.sc (.int 1)) },
+                            { name := 5, ty := .dict .str .any }],
+                  initOrder := [0] },
+                { id := 0, attrs := [{ name := 0, ty := .spec 1 }], initOrder := [0] }],
+    prep := fun _ _ v => v }
+def ovo : Ov.OvMap := fun c => if c = 1 then some 5 else none
+
+/-- non-vacuity of `with_keywords_builds_overflow` / `overflow_collects_extras`: a first call with keywords
+`a0, a40`, then — on the same classes — a second one with the other keywords `a41, a42`: each result is built
+from the keywords of its own call -/
+example : Ov.run Eo ovo 6 (.inst 0 .nil) { op := .withA 0 MISSING [(0, .sc (.int 7)), (40, .sc (.str 100))] }
+    = ⟨.inst 0 .nil, .fresh (.inst 0 (.cons 0 (.inst 1 (.cons 0 (.sc (.int 7))
+        (.cons 5 (.dict (.cons (.sc (.str 40)) (.sc (.str 100)) .nil)) .nil))) .nil))⟩ := by decide
+example : Ov.run Eo ovo 6 (.inst 0 .nil) { op := .withA 0 MISSING [(41, .sc (.int 4)), (42, .sc (.int 2))] }
+    = ⟨.inst 0 .nil, .fresh (.inst 0 (.cons 0 (.inst 1 (.cons 0 (.sc (.int 1))
+        (.cons 5 (.dict (.cons (.sc (.str 41)) (.sc (.int 4)) (.cons (.sc (.str 42)) (.sc (.int 2)) .nil))) .nil))) .nil))⟩ := by
+  decide
+/-- the memo: a `**kwargs` constructor (1) answers with the keywords of each call, a fixed one (0) is remembered -/
+example : Ov.runArgs (fun f => if f = 0 then .fixed [0, 1] else .varkw [0]) []
+    [(1, [0, 40]), (0, [7]), (1, [41, 42]), (0, [0]), (1, [])] = [[0, 40], [0, 1], [41, 42], [0, 1], []] := by decide
+
 end SpecVerif.Props.C05
-
-
